@@ -353,8 +353,16 @@ func driveC15(c *Ctx) {
 		var rs []*jsonschema.Resolved
 		for wi, w := range worlds {
 			var s jsonschema.Schema
-			json.Unmarshal([]byte(w.Text), &s)
-			res, err := s.Resolve(&jsonschema.ResolveOptions{ValidateDefaults: withVD[wi]})
+			var res *jsonschema.Resolved
+			var err error
+			r := Op(func() {
+				json.Unmarshal([]byte(w.Text), &s)
+				res, err = s.Resolve(&jsonschema.ResolveOptions{ValidateDefaults: withVD[wi]})
+			})
+			c.CheckOp("Resolve", r)
+			if r.Panicked {
+				return
+			}
 			if err != nil {
 				c.Fail("C15/legitimate", "resolve", "schema %d does not resolve: %v", wi, err)
 				return
